@@ -1,7 +1,8 @@
 from ast import Attribute, Subscript, Load, NodeVisitor
 
 from .compat import PY2
-from .scope import FuncScope, Flow, SourceScope, ClassScope, CompScope
+from .scope import (FuncScope, Flow, SourceScope, ClassScope, CompScope,
+                    get_first_body_node_loc)
 from .name import AssignedName, ImportedName
 from .util import (np, get_expr_end, get_indexes_for_target, visitor, get_any_marked_name,
                    insert_loc)
@@ -21,6 +22,12 @@ if False:
     from .project import Project
 
     T = t.TypeVar('T')
+
+
+def body_loc(body):
+    # type: (list[ast.stmt]) -> loc_t
+    # where a block starts: at the first decorator of a decorated definition
+    return get_first_body_node_loc(body) or np(body[0])
 
 
 def extract_scope(source, project):
@@ -130,7 +137,7 @@ class extract_visitor(NodeVisitor):
                 # 'for self.x in ...' binds no name; the target expression is read
                 self.visit_in_flow(name, body_start)
                 continue
-            body_start.add_name(AssignedName(name.id, np(node.body[0]), np(name), node.iter))
+            body_start.add_name(AssignedName(name.id, body_loc(node.body), np(name), node.iter))
         body = self.visit_in_flow(node.body, body_start)
         body_start.loop(body)
 
@@ -210,9 +217,9 @@ class extract_visitor(NodeVisitor):
             fh = self.make_flow('except', [cur, body])
             if h.name:
                 if PY2:
-                    fh.add_name(AssignedName(h.name.id, np(h.body[0]), np(h), h.type))
+                    fh.add_name(AssignedName(h.name.id, body_loc(h.body), np(h), h.type))
                 else:
-                    fh.add_name(AssignedName(h.name, np(h.body[0]), np(h), h.type))  # type: ignore[arg-type]
+                    fh.add_name(AssignedName(h.name, body_loc(h.body), np(h), h.type))  # type: ignore[arg-type]
             if h.type:
                 self.visit(h.type)
             handlers.append(self.visit_in_flow(h.body, fh))
